@@ -7,6 +7,7 @@ import XL.Model.Ops
 import XL.Model.FloatNum
 import XL.Model.Lex
 import XL.Model.BookProto
+import XL.Model.Circ
 /-!
 # Request dispatcher of the executable model
 -/
@@ -179,6 +180,8 @@ def answerOps (cmd : String) (args : List String) : Option String :=
 def answerParse (cmd : String) (args : List String) : Option String :=
   match cmd, args with
   | "book", _ => BookProto.answerBook args
+  | "cbook", _ => CircProto.answerCBook args
+  | "cycles", _ => CircProto.answerCycles args
   | "parse", [t] =>
       pure (match parseString (decodeStr t) with
         | .ok a => "ok " ++ encodeStr (render a).toList
